@@ -44,8 +44,55 @@ SVC_MOD = "tc_service"
 CLIENT = "TcServiceClient"
 
 
+def _t0_literals():
+    """Literals of /repo (and of the installed api_core contract) the model was written against; fail-closed."""
+    tree = ast.parse(open(os.path.join(env.REPO, "gapic/schema/wrappers.py"), encoding="utf-8").read())
+    out = {}
+    for cls in [n for n in tree.body if isinstance(n, ast.ClassDef)]:
+        for fn in [n for n in cls.body if isinstance(n, ast.FunctionDef)]:
+            if cls.name == "Method" and fn.name == "path_params":
+                pats = [n.value.value for n in ast.walk(fn) if isinstance(n, ast.Assign) and getattr(n.targets[0], "id", "") == "pattern"
+                        and isinstance(n.value, ast.Constant)]
+                calls = [ast.unparse(n) for n in ast.walk(fn) if isinstance(n, ast.Call) and ast.unparse(n.func) == "re.findall"]
+                if len(pats) != 1 or calls != ["re.findall(pattern, self.http_opt['url'])"]:
+                    raise ValueError("Method.path_params: pattern = r'...'; re.findall(pattern, self.http_opt['url']) not found")
+                out["PATH_PARAMS_RE_src"] = pats[0]
+            if cls.name == "HttpRule" and fn.name == "try_parse_http_rule":
+                cmp_ = [ast.unparse(n) for n in ast.walk(fn) if isinstance(n, ast.If) and "custom" in ast.unparse(n.test)]
+                tests = [ast.unparse(n.test) for n in ast.walk(fn) if isinstance(n, ast.If)]
+                out["TRY_PARSE_TESTS_src"] = " ; ".join(tests)
+            if cls.name == "Method" and fn.name == "query_params":
+                out["QUERY_PARAMS_RETURN_src"] = " ; ".join(ast.unparse(n.value) for n in ast.walk(fn) if isinstance(n, ast.Return) and n.value is not None)
+    for k in ("PATH_PARAMS_RE_src", "TRY_PARSE_TESTS_src", "QUERY_PARAMS_RETURN_src"):
+        if k not in out:
+            raise ValueError(f"{k}: anchor not found in gapic/schema/wrappers.py")
+    # contract (installed api_core): the re.VERBOSE pattern without its comments and whitespace
+    out["VARIABLE_RE_src"] = "".join("".join(l.split("#")[0] for l in path_template._VARIABLE_RE.pattern.split("\n")).split())
+    out["SEGMENT_PATTERNS_src"] = path_template._SINGLE_SEGMENT_PATTERN + " " + path_template._MULTI_SEGMENT_PATTERN
+    return out
+
+
 def regen(ctx):
     t0.write_kw()
+    lits = _t0_literals()
+    text = ("(* Gen/HttpGen.v — REGENERATED from /repo (gapic/schema/wrappers.py, read with ast) and from the installed\n"
+            "   google.api_core.path_template on every run (T0). Do not edit. *)\nFrom GV Require Import Base.Str.\n")
+    for k in sorted(lits):
+        text += f"Definition {k} : string := {coq.s(lits[k])}.\n"
+    coq.write_gen("HttpGen", text)
+    if ctx is not None:
+        bad = [f"{k} = {lits[k]!r} (model written against {v!r})" for k, v in PINNED.items() if lits.get(k) != v]
+        ctx.oblige("T0 literals of wrappers.py (path_params regex, try_parse tests, query_params returns) and of api_core's path_template "
+                   "equal the ones Model/Http.v was written against (also pinned in Proofs/Http.v)", not bad, "; ".join(bad), "T0")
+
+
+PINNED = {
+    "PATH_PARAMS_RE_src": r"\{(\w+)(?:=.+?)?\}",
+    "TRY_PARSE_TESTS_src": "method is None or method == 'custom' ; not uri ; body in utils.RESERVED_NAMES and (not body.endswith('_'))",
+    "QUERY_PARAMS_RETURN_src": "set(self.input.fields) - params ; set() ; set()",
+    "VARIABLE_RE_src": r"((?P<positional>\*\*?)|{(?P<name>[^/]+?)(?:=(?P<template>.+?))?})",
+    "SEGMENT_PATTERNS_src": "([^/]+) (.+)",
+}
 
 
 def reserved_pool():
@@ -624,6 +671,17 @@ def witness_api():
     svc.rpc("Body", b.fqn, rep.fqn, http=("get", "/v1/{name=items/*}"), more_http=[("post", "/v1/{parent=ps/*}/items", "*")])
     svc.rpc("Seg", s.fqn, rep.fqn, http=("get", "/v1/{a=*}/{b=**}"))
     svc.rpc("Bytes", y.fqn, rep.fqn, http=("get", "/v1/{name=items/*}"))
+    # the running example of Proofs/Http.v (ex_method / ex_req)
+    kind = f.enum("Kind", ["KIND_UNSPECIFIED", "KIND_A", "KIND_B"])
+    sub = f.message("Sub"); sub.field("class", 1, "string").field("count", 2, "int32")
+    o = f.message("OneRequest")
+    o.field("name", 1, "string", required=True).field("class", 2, "string", required=True).field("sub", 3, sub.fqn, required=True)
+    o.field("page_size", 4, "int32", required=True).field("kind", 5, ("enum", kind), required=True).field("flag", 6, "bool", required=True)
+    o.field("ratio", 7, "double", required=True).field("blob", 8, "bytes", required=True).field("big", 9, "int64", required=True)
+    o.field("tags", 10, "string", repeated=True, required=True).field("from", 11, "string")
+    o.map_field("labels", 12, "string", "string")
+    svc.rpc("One", o.fqn, rep.fqn, http=("post", "/v1/{name=items/*}/{sub.class=things/*}:one"), body="sub",
+            more_http=[("get", "/v1/{class=cls/*}", None), ("put", "/v2/{name=items/*}", "*")])
     e = f.message("EchoRequest"); e.field("name", 1, "string")
     kr = f.message("KwReply"); kr.field("ignore_unknown_fields", 1, "string").field("note", 2, "string")
     svc.rpc("Echo", e.fqn, kr.fqn, http=("get", "/v1/{name=items/*}:echo"))
@@ -642,9 +700,13 @@ def run_witnesses(ctx):
         "Bytes": [d.b64(d.new(P + ".BytesRequest", name="items/i"))],
         "Echo": [d.b64(d.new(P + ".EchoRequest", name="items/i"))],
     }
+    one = d.new(P + ".OneRequest", name="items/i1", kind=1, tags=["a", "b"], labels={"k.x": "v"}, **{"from": "f"})
+    setattr(one.sub, "class", "things/t1"); one.sub.count = 3
+    fixed["One"] = [d.b64(one), d.b64(d.new(P + ".OneRequest", **{"class": "cls/c1"})), d.b64(d.new(P + ".OneRequest", name="items/i3", big=5)),
+                    d.b64(d.new(P + ".OneRequest", name="items/i3"))]
     kw_reply = d.new(P + ".KwReply", note="n", ignore_unknown_fields="c")
     fixed_reply = {"Echo": (d.b64(kw_reply), json.dumps({"ignore_unknown_fields": "c", "note": "n"}), True)}
-    jobs = [{"idx": 900, "numeric": False, "req": req, "ncalls": 1, "families": ["normal"], "fixed": fixed, "fixed_reply": fixed_reply,
+    jobs = [{"idx": 900, "numeric": False, "req": req, "ncalls": 4, "families": ["normal"], "fixed": fixed, "fixed_reply": fixed_reply,
              "seed_tag": "wit"}]
     results = gen.pmap(run_library, jobs)
     before = len(ctx.violations)
